@@ -35,6 +35,17 @@ def plan(tier, seed):
                       'file_index': rnd.randrange(len(files)),
                       'nmut': rnd.choice([0, 1, 1, 1, 2, 2, 3, 4]), 'npos': npos,
                       'whole': rnd.random() < 0.25, 'seed': '%s/C01/%d' % (seed, i)})
+    # witnesses of the listed findings: each is the replayable case that first showed it
+    import json
+    import pathlib
+    kf = json.loads((pathlib.Path(__file__).resolve().parents[2] / 'known_findings.json').read_text())
+    k = 0
+    for f in kf['findings']:
+        w = f.get('witness')
+        if f['property'] == 'C01' and f.get('status') == 'open' and isinstance(w, dict) \
+                and w.get('replay_spec'):
+            k += 1
+            specs.append(dict(w['replay_spec'], id='c01w-%d' % k))
     return specs
 
 
@@ -48,7 +59,7 @@ def build_text(spec):
     else:
         files = corpus.files()
         text = corpus.read(files[spec['file_index'] % len(files)])
-        if not spec.get('whole') or len(text) > 40000:
+        if not spec.get('whole') or len(text) > 15000:
             text = corpus.fragment(text, rnd)
         for _ in range(spec['nmut']):
             text, near = mutate.mutate(text, rnd)
